@@ -21,16 +21,16 @@ class C02(Prop):
     lean_exe = "c02_driver"
     harness = "h_sqio.c"
     MSA_THEOREMS = ["msa_open_total", "msa_fetch_total", "msa_read_total", "msa_readSequence_total", "msa_readInfo_total", "msa_mode_ok",
-                    "msa_fwd_window_coords", "msa_rev_window_coords", "msa_rev_window_old_illformed", "msa_readWindow_total", "msa_readBlock_total", "msa_guessAlphabet_total", "msa_read_total_stockholm", "msa_file_read_total", "readSequence_linebased_total"]
+                    "msa_fwd_window_coords", "msa_rev_window_coords", "msa_rev_window_old_illformed", "msa_readWindow_total", "msa_readBlock_total", "msa_guessAlphabet_total", "msa_read_total_stockholm", "msa_file_read_total", "readSequence_linebased_total", "readInfo_linebased_total", "linebased_history_total"]
     theorems = ["EaselModel.Props.C02." + t for t in S.C02_THEOREMS + MSA_THEOREMS]
     claimed = True
     diverge_is_violation = True
     level_text = ("Theorems for every byte string and every read-block size B >= 1 (FASTA family, text and digital): opening the file and reading records with sqascii_Read until the first non-OK status ends within size+2 calls with eslEOF or eslEFORMAT - never a fault (no buf[i] outside the buffer, no store outside an allocation of the ESL_SQ, through loadbuf / nextchar / header_fasta / seebuf / addbuf / end_fasta composed) - and every record returned is well formed (read_all_total, read_total; the reader IS the declarative parser specFasta: C04.read_all_eq_specFasta); the same for ReadInfo, ReadSequence (readInfo_total, readSequence_total) and whole-sequence ReadBlock (readBlock_total); eslEFORMAT always comes with a message; "
-                  "the primitives: loadbuf keeps its window inside the file (loadbuf_total), nextchar neither skips nor repeats a byte across block boundaries (nextchar_total), seebuf never leaves the buffer and rejects bytes >= 0x80 before they index the input map (seebuf_total), the file and alphabet input maps agree on every symbol (inmaps_agree, re-proved against the regenerated tables each run); read_nres and forward ReadWindow are total for EVERY byte string as well - illegal bytes included: eslOK / eslEOD / eslEOF / eslEFORMAT with a message, no exception, never a fault (read_nres_total_any, readWindow_total). EMBL / UniProt / GenBank / DDBJ: sqascii_Read is total for every byte string and every B as well - eslOK / eslEOF / eslEFORMAT with a message, no exception, never a fault, the scanning loops never run away, and reading a whole file from open on ends with eslEOF or eslEFORMAT within size+2 calls (read_linebased_total, read_all_linebased_total). "
+                  "the primitives: loadbuf keeps its window inside the file (loadbuf_total), nextchar neither skips nor repeats a byte across block boundaries (nextchar_total), seebuf never leaves the buffer and rejects bytes >= 0x80 before they index the input map (seebuf_total), the file and alphabet input maps agree on every symbol (inmaps_agree, re-proved against the regenerated tables each run); read_nres and forward ReadWindow are total for EVERY byte string as well - illegal bytes included: eslOK / eslEOD / eslEOF / eslEFORMAT with a message, no exception, never a fault (read_nres_total_any, readWindow_total). EMBL / UniProt / GenBank / DDBJ: sqascii_Read, sqascii_ReadSequence and sqascii_ReadInfo (readSequence_linebased_total, readInfo_linebased_total; linebased_history_total: every history of Read / ReadSequence calls from open on) are total for every byte string and every B as well - eslOK / eslEOF / eslEFORMAT with a message, no exception, never a fault, the scanning loops never run away, and reading a whole file from open on ends with eslEOF or eslEFORMAT within size+2 calls (read_linebased_total, read_all_linebased_total). "
                   "Alignment files read as sequences (Stockholm, Pfam, A2M, PSI-BLAST, SELEX, aligned FASTA, Clustal, Clustal-like, PHYLIP interleaved / sequential; declared, or autodetection falling through to the msafile module): the esl_sqio_IsAlignment branches of sqascii_Read / ReadInfo / ReadSequence / ReadWindow / ReadBlock, esl_sq_FetchFromMSA and the dealigning are modelled on top of the C01 reader models, and for EVERY byte string and every history of calls: open is eslOK or eslEFORMAT (msa_open_total) and from open through any number of Read calls the outcome is ok / eof / eformat with a message, no fault, no exception, with no hypothesis at all (msa_file_read_total); Read / ReadSequence / ReadInfo answer eslOK with a well-formed record (strings and residues inside their allocations, residue array of exactly the reported length, start/end/C/W/L consistent, text residues never NUL or a gap character, digital codes < Kp and never a sentinel), eslEOF, or eslEFORMAT with a message - never a fault, no exception (msa_read_total, msa_readSequence_total, msa_readInfo_total, msa_fetch_total); ReadWindow on both strands from every consistent window state answers ok / eod / eof / eformat / einval(text reverse strand, non-nucleic symbol) with n = C'+W', 0 <= C' <= C, 1 <= W' <= |W|, the slice inside the row, and leaves a state the next call accepts (msa_readWindow_total); whole-sequence ReadBlock and GuessAlphabet on an alignment file are total too (msa_readBlock_total, msa_guessAlphabet_total); forward windows tile 1..L and - after the repair 46b16f4 of the known finding, now retired - reverse windows tile L..1 exactly once (msa_fwd_window_coords, msa_rev_window_coords; msa_rev_window_old_illformed shows the old arithmetic ill formed at the witness). The lemmas under them take the hypothesis that the reader delivers alignments in the handle's mode (digital iff an alphabet was set): proved for all ten formats, every alphabet and every PHYLIP name width (msa_mode_ok: every reader returns eslOK only through its finishing function; Stockholm / Pfam: none of the reader's 33 helper functions ever fails with eslOK), and discharged in the theorems above: they carry no hypothesis on the reader or the bytes. "
                   "Tie: exact differential run of the executable model (FASTA, EMBL/UniProt, GenBank/DDBJ, daemon, hmmpgmd, the ten alignment formats, suffix / first-line / msafile autodetection; Read/ReadInfo/ReadSequence/ReadWindow incl. reverse strand/ReadBlock/GuessAlphabet) (outcome, message flag, line number, every ESL_SQ field) against the ASan/UBSan/LSan build on mutated formats/* files, generated FASTA with injected NUL/CR/>=0x80/illegal bytes and raw bytes, x B swept over 1..4097 incl. the sizes that cut the header line, a CR LF pair or the file end; "
                   "generated and mutated alignment files of all ten formats (props/msagen.py) and esl_msa_testfiles/*, FASTA files whose name / description / residue counts and header-line lengths sit on the ESL_SQ reallocation sizes and on 127/128/129 and 4095/4096/4097 bytes with B at / next to them; for ALL format selections (incl. EMBL/UniProt/GenBank/DDBJ/daemon/hmmpgmd/autodetect/alignment-as-sequences) x text/amino/DNA/RNA x Read/ReadInfo/ReadSequence/ReadWindow/ReadBlock the harness-side monitor checks status in the documented set, message on eslEFORMAT, well-formed ESL_SQ, no exception, no sanitizer report, no leak.")
-    level_note = ("Totality as a theorem covers FASTA Read / ReadInfo / ReadSequence / whole-sequence ReadBlock / forward ReadWindow / read_nres, Read of the line-based formats, and every reading call of the alignment-as-sequences path (Read / ReadInfo / ReadSequence / ReadWindow both strands; the ten alignment readers themselves are C01's theorems, composed here; the line reader under them is C05's). Still covered by the exact differential run and the sanitizer build only (model, no theorem): reverse-strand windows of the unaligned formats on malformed data, ReadInfo / ReadSequence / ReadWindow of EMBL / GenBank, daemon / hmmpgmd, long-target ReadBlock, the unaligned format guesser and GuessAlphabet of the unaligned formats (on an alignment file ReadBlock and GuessAlphabet are theorems: msa_readBlock_total, msa_guessAlphabet_total); the mode hypothesis of the alignment lemmas (reader result digital iff alphabet set) is itself a theorem for every opened file (msa_mode_ok). The line number reported with eslEFORMAT from inside an alignment file is the msafile module's and is not compared (the C01 models do not carry it). Leaks are LSan only. No known finding is open: C02:readwindow-msa:reverse-strand-coordinates was repaired by 46b16f4 and retired.")
+    level_note = ("Totality as a theorem covers FASTA Read / ReadInfo / ReadSequence / whole-sequence ReadBlock / forward ReadWindow / read_nres, Read of the line-based formats, and every reading call of the alignment-as-sequences path (Read / ReadInfo / ReadSequence / ReadWindow both strands; the ten alignment readers themselves are C01's theorems, composed here; the line reader under them is C05's). Still covered by the exact differential run and the sanitizer build only (model, no theorem): reverse-strand windows of the unaligned formats on malformed data, ReadWindow of EMBL / GenBank (Read, ReadSequence, ReadInfo there are theorems), daemon / hmmpgmd, long-target ReadBlock, the unaligned format guesser and GuessAlphabet of the unaligned formats (on an alignment file ReadBlock and GuessAlphabet are theorems: msa_readBlock_total, msa_guessAlphabet_total); the mode hypothesis of the alignment lemmas (reader result digital iff alphabet set) is itself a theorem for every opened file (msa_mode_ok). The line number reported with eslEFORMAT from inside an alignment file is the msafile module's and is not compared (the C01 models do not carry it). Leaks are LSan only. No known finding is open: C02:readwindow-msa:reverse-strand-coordinates was repaired by 46b16f4 and retired.")
     assumptions = ["fread returns min(B, remaining) bytes; allocation never fails (eslEMEM paths not modelled)",
                    "alignment files read as sequences sit on the C01 reader models over the abstract line reader (split at LF, one CR stripped): the refinement of esl_buffer_GetLine to it for every page size is C05; the caller's ESL_SQ is in the mode of the file (text / digital), as esl_sqfile_Open* + esl_sq_Create* of the same alphabet give",
                    "the model mirrors esl_sqio_ascii.c by hand; fidelity is checked by the differential run only"]
